@@ -48,6 +48,7 @@ func checkC04(c *fw.Ctx) {
 		fn := ctors[short]
 		n++
 		checkUntrustedCtor(c, short, fn)
+		checkDecodedOnce(c, short, fn)
 		// the keys stripped from the input before it is decoded: walk back from the bytes given
 		// to json.Unmarshal to the constructor's eventJSON parameter
 		keys := map[string]bool{}
@@ -490,4 +491,65 @@ func checkNoOpRedact(c *fw.Ctx, rule, short string, ctor *ssa.Function) {
 			}
 		}
 	}
+}
+
+
+// checkDecodedOnce (rule 5): encoding/json leaves the fields of its target alone when their
+// members are absent from the input. An event object that has been decoded from the received
+// bytes and is then decoded into again from other bytes (the redacted form) therefore keeps
+// whatever the first decode put into the fields that redaction removed (redacts, the sticky
+// markers, ...): the typed accessors leak what the redaction was meant to hide. Within one
+// constructor no object receives two decodes one of which can follow the other.
+func checkDecodedOnce(c *fw.Ctx, short string, fn *ssa.Function) {
+	rule := "5 decoded-once"
+	type dec struct {
+		call   ssa.CallInstruction
+		target string
+		bytes  string
+	}
+	var ds []dec
+	for _, u := range fw.CallsTo(fn, true, fw.NameIs("encoding/json.Unmarshal")) {
+		args := u.Common().Args
+		if len(args) != 2 {
+			continue
+		}
+		t := fw.UnwrapIface(args[1])
+		ds = append(ds, dec{u, fw.Sig(t), fw.Sig(args[0])})
+	}
+	construct := short + ": an event object is decoded into once"
+	bad := ""
+	for i := range ds {
+		for j := range ds {
+			if i == j || ds[i].target != ds[j].target || ds[i].bytes == ds[j].bytes {
+				continue
+			}
+			a, b := ds[i].call.(ssa.Instruction), ds[j].call.(ssa.Instruction)
+			if a.Parent() != b.Parent() || a == b {
+				continue
+			}
+			if a.Block() != b.Block() && reachesInstr(a, b) || a.Block() == b.Block() && instrBefore(a, b) {
+				bad = c.P.Pos(ds[j].call.Pos())
+			}
+		}
+	}
+	switch {
+	case bad != "":
+		c.Fail(rule, construct, bad, "the object that was decoded from the received bytes is decoded into a second time from other bytes: fields whose members are absent from the second input (those the redaction removed) keep the values of the first - Redacts(), the sticky markers and the like still show the tampered event")
+	case len(ds) == 0:
+		c.Undecided(rule, construct, "no json.Unmarshal in the constructor itself")
+	default:
+		c.Ok(rule, construct, c.P.Pos(fn.Pos()), "")
+	}
+}
+
+func instrBefore(a, b ssa.Instruction) bool {
+	for _, ins := range a.Block().Instrs {
+		if ins == a {
+			return true
+		}
+		if ins == b {
+			return false
+		}
+	}
+	return false
 }
